@@ -166,7 +166,16 @@ pub fn case(rng: &mut Rng) -> String {
             let g: AffTree<2> = rand_tree(rng, &tp);
             // the reference point: an integer vector, or a point that lies on a decision hyperplane of g (then a
             // decision whose variables are all fixed becomes the constant predicate `0 <= 0` in the slice)
-            let mut refp = if rng.chance(1, 2) { rand_int_vec(rng, n) } else { rand_points(rng, &g, 1).pop().unwrap_or_else(|| Array1::zeros(n)) };
+            // (only points on the small dyadic lattice: a reference point one unit in the last place off a hyperplane
+            // is rounded away when `from_slice` is composed, which is the rounding clause, not the restriction law)
+            let mut refp = if rng.chance(1, 2) {
+                rand_int_vec(rng, n)
+            } else {
+                rand_points(rng, &g, 4)
+                    .into_iter()
+                    .find(|p| p.iter().all(|v| (v * 1024.0).fract() == 0.0 && v.abs() < 64.0))
+                    .unwrap_or_else(|| rand_int_vec(rng, n))
+            };
             let mut mask = Vec::new();
             for j in 0..n {
                 let keep = rng.chance(1, 2);
